@@ -41,6 +41,7 @@ var purePackages = map[string]string{
 	"net/url":       "URL parsing is side-effect free",
 	"regexp":        "matching is side-effect free",
 	"encoding/base64": "side-effect free",
+	"github.com/evanphx/json-patch": "DecodePatch / Patch.Apply read their inputs and return new values",
 	"encoding/json": "Marshal reads its argument only (Unmarshal is modelled separately)",
 	"github.com/go-jose/go-jose/v3/json": "Marshal reads its argument only (Unmarshal is modelled separately)",
 	"github.com/btcsuite/btcutil/base58": "side-effect free",
